@@ -122,6 +122,14 @@ def cases(ctx):
                         yield ("range", ci, enc, rc, sc)
             for i in range(8 if enc != "der" else 16):
                 yield ("malformed", ci, enc, i)
+            # in-range signatures constructed (with the private key) so that the verification point u1*G + u2*Q is the point at
+            # infinity: r = -z/d mod n with any s.  Not valid signatures - they must be rejected like any other bad signature
+            for si in range(3):
+                yield ("forge-infinity", ci, enc, si)
+            # canonisation at the very edge: signatures forced (chosen nonce and digest) to s = (n-1)/2 + delta must come out with
+            # s <= (n-1)/2 - an exact integer comparison, which a float comparison gets wrong for big orders
+            for delta in (-1, 0, 1, 2, 1000):
+                yield ("canon-edge", ci, enc, delta)
 
 
 KEY_OPS = [("sign", "sha256", 0), ("sign", "sha1", 1), ("sign", "sha512", 0), ("verify", "sha256", 0), ("verify", "sha1", 1),
@@ -369,6 +377,48 @@ def run_case(ctx, case):
         else:
             o.cls = "accepted"
             o.viol("range|accepted|%s" % enc, "%s %s: out-of-range signature (r=%s, s=%s) accepted" % (cur.name, enc, rc, sc))
+        return o
+    if kind == "canon-edge":
+        _, ci, enc, delta = case
+        encf, decf = enc_fns(enc, True)
+        h_ = (n - 1) // 2
+        target = h_ + delta
+        k = 0x1234567 % (n - 2) + 2
+        Rk = cv.mul(k, cv.g)
+        r = Rk[0] % n
+        z = (target * k - r * d) % n
+        digest = z.to_bytes(cur.baselen, "big")      # sign_digest without truncation takes the bytes as the number
+        try:
+            sig = sk.sign_digest(digest, sigencode=encf, k=k)
+        except Exception as e:
+            return o.viol("canon-edge|sign-raises|%s" % type(e).__name__, "%s %s: signing with a chosen nonce raised %r" % (cur.name, enc, e))
+        r2, s2 = rs_of(sig, enc, n)
+        if r2 != r or s2 not in (target, n - target):
+            return Outcome("construction-missed", False).viol("canon-edge|harness", "%s: constructed signature has other r/s than intended" % cur.name)
+        if s2 > h_:
+            o.cls = "not-canonical"
+            return o.viol("encode|not-canonical|edge", "%s %s: a signature with s = (n-1)/2 %+d was 'canonised' to s = %s, which is above n/2" % (
+                cur.name, enc, delta, "(n-1)/2 %+d" % (s2 - h_)))
+        return o
+    if kind == "forge-infinity":
+        _, ci, enc, si = case
+        from ..ref import rfc6979 as R6
+        encf, decf = enc_fns(enc, False)
+        z = R6.digest_int(hf(MSG).digest(), n)
+        r = (-z * pow(d, -1, n)) % n
+        s_ = [1, n - 1, (z * 7 + 3) % (n - 1) + 1][si]
+        if not (1 <= r < n):
+            return Outcome("r-out-of-range", False)
+        res = verify_outcome(vk, from_rs(r, s_, enc, n), MSG, hf, decf)
+        if res == "bad":
+            o.cls = "rejected"
+        elif isinstance(res, tuple):
+            o.cls = "foreign"
+            o.viol("forge-infinity|foreign|%s" % type(res[1]).__name__, "%s %s: an in-range signature whose verification point is the point at "
+                   "infinity made verify() raise %r instead of BadSignatureError" % (cur.name, enc, res[1]))
+        else:
+            o.cls = "accepted"
+            o.viol("forge-infinity|accepted", "%s %s: a signature whose verification point is the point at infinity was accepted" % (cur.name, enc))
         return o
     if kind == "malformed":
         _, ci, enc, i = case
